@@ -85,7 +85,11 @@ Failed(e) ==
                        [] o.tag = "err" -> {c \in {"C11.err_variant"} : ~(o.variant \in d \/ "*" \in d)}
          IN J(e.out) \cup J(e.out_stats)
     [] e.op = "quant.data" ->
-         IF e.ty = "f64nan" \/ e.entry = "max_small"
+         IF e.entry = "sorted_raw"
+         THEN (IF e.out.tag = "panic" THEN {"C11.no_panic"}
+               ELSE IF e.out.tag # "ok" THEN {}
+               ELSE {c \in {"C11.ok_sane"} : e.out.iv.kind = "two" /\ ~(e.out.iv.lo <= e.out.iv.hi)})
+         ELSE IF e.ty = "f64nan" \/ e.entry = "max_small"
          THEN \* documented panics (incomparable elements, capacity overflow): any outcome but a bad Ok
               \* (a NaN bound is reported by the harness as the key -999)
               LET o == e.out IN
@@ -118,6 +122,7 @@ Clauses(e) ==
     [] e.op = "quant.ranks" -> {"C11.no_panic", "C11.quant_ranks"}
     [] e.op = "quant.data" -> {"C11.no_panic", "C11.quant_data"}
                               \cup (IF e.ty = "f64nan" \/ e.entry = "max_small" THEN {"C11.documented_panic_quantile"} ELSE {})
+                              \cup (IF e.entry = "sorted_raw" THEN {"C11.unsorted_input_to_sorted_unchecked"} ELSE {})
 
 VARIABLES l, cov, nbad
 vars == <<l, cov, nbad>>
